@@ -118,7 +118,17 @@ fn write(
 
     for printable in state.strip_next(buf) {
         let possible = printable.len();
-        let written = raw.write(printable)?;
+        let written = match raw.write(printable) {
+            Ok(written) => written,
+            Err(err) => {
+                // Only report the error if nothing was consumed, otherwise it would be lost data
+                let offset = offset_to(buf, printable);
+                let consumed = &buf[..offset];
+                *state = initial_state;
+                state.strip_next(consumed).last();
+                return if offset == 0 { Err(err) } else { Ok(offset) };
+            }
+        };
         if possible != written {
             let divergence = &printable[written..];
             let offset = offset_to(buf, divergence);
